@@ -24,6 +24,8 @@ const (
 	EvC04Health  = 65 // ts health(0 healthy, 2 down)
 	EvC04Detect  = 66 //                                    obs: corrupt map, entries, unrecoverable
 	EvC04Pop     = 67 // op gen blob tract nbad bad...      obs: curator RPCs issued
+	EvC04PopSeed = 68 // as 67, the monitor keeps expecting the durable known-tractserver set while the task runs
+	EvC04Unseed  = 69 // n ids...                           the expected-only entries of the task's bad servers go again
 )
 
 type C04Weights struct {
@@ -62,6 +64,9 @@ type C04 struct {
 	corruptSeq map[int]map[core.TractID]int
 	lastDur  map[core.TractID]curator.VerifTractState
 	prev     map[int]map[core.TractID]c04Rep
+	winRec   *curator.VerifRecovery
+	winAdded []core.TractserverID
+	winIDs   []int64
 	tasks    map[int]*c04Task
 	seenEv   int
 	Faults   int
@@ -334,11 +339,38 @@ func tractLess(a, b core.TractID) bool {
 }
 
 // Pop = runnerLoop: take the best queued task and run it (as an activity of the scheduler).
-func (c *C04) Pop() *Event {
+func (c *C04) Pop() *Event { return c.pop(false) }
+
+// PopSeeded = Pop while the monitor expects the durable known-tractserver set (updateTsmonLoop's effect) for the
+// whole run of the task; CloseWindow ends it.  Used where the task runs in isolation (Heal).
+func (c *C04) PopSeeded() *Event { return c.pop(true) }
+
+func (c *C04) CloseWindow() {
+	if c.winRec == nil {
+		return
+	}
+	c.winRec.Unseed(c.winAdded)
+	op := []int64{EvC04Unseed, int64(len(c.winIDs))}
+	op = append(op, c.winIDs...)
+	c.winRec, c.winAdded, c.winIDs = nil, nil, nil
+	c.finish(&Event{Code: EvC04Unseed}, op, nil)
+}
+
+func (c *C04) pop(seed bool) *Event {
 	r := c.rec()
 	vt, ok := r.PopTask()
 	if !ok {
 		return nil
+	}
+	code := int64(EvC04Pop)
+	if seed {
+		code = EvC04PopSeed
+		c.winRec = r
+		c.winAdded = r.SeedExpected(vt.Bad)
+		c.winIDs = nil
+		for _, a := range c.winAdded {
+			c.winIDs = append(c.winIDs, int64(a))
+		}
 	}
 	d := c.D
 	cur := d.Cl.Cur
@@ -358,7 +390,7 @@ func (c *C04) Pop() *Event {
 	})
 	d.tasks = append(d.tasks, op)
 	c.Repairs++
-	args := []int64{EvC04Pop, int64(op.ID), int64(cur.Gen), int64(blob), int64(tract), int64(len(bad))}
+	args := []int64{code, int64(op.ID), int64(cur.Gen), int64(blob), int64(tract), int64(len(bad))}
 	for _, x := range bad {
 		args = append(args, int64(x))
 	}
@@ -459,10 +491,19 @@ func hostSet(hs []core.TractserverID) map[int]bool {
 // Poll runs the transition monitors over what happened since the last call (at most a few events).
 func (c *C04) Poll() {
 	d := c.D
+	for ts := range c.Silent {
+		if c.winRec == nil && d.Cl.Cur.C04HasBeaten(core.TractserverID(ts)) {
+			last := -1
+			if len(d.Events) > 0 {
+				last = d.Events[len(d.Events)-1].Code
+			}
+			d.Bads = append(d.Bads, Bad{Sig: "harness-lost-server-heartbeated", What: "harness bug: a lost server sent the current leader a heartbeat", Detail: map[string]interface{}{"ts": ts, "lastEvent": last, "events": len(d.Events), "rpc": fmt.Sprint(d.Events[len(d.Events)-1].RPC), "gen": d.Cl.Cur.Gen}})
+		}
+	}
 	// 1. new events: task starts, same-version re-pulls, task results
 	for ; c.seenEv < len(d.Events); c.seenEv++ {
 		ev := d.Events[c.seenEv]
-		if (ev.Code == EvStartRepl || ev.Code == EvC04Pop) && len(ev.Args) >= 5 {
+		if (ev.Code == EvStartRepl || ev.Code == EvC04Pop) && len(ev.Args) >= 5 { // (a seeded pop is recorded with code 67 too)
 			t := &c04Task{op: int(ev.Args[0]), blob: int(ev.Args[2]), tract: int(ev.Args[3])}
 			for _, x := range ev.Args[5:] {
 				t.bad = append(t.bad, int(x))
@@ -679,8 +720,9 @@ func (c *C04) Heal(maxRounds int) int {
 		if len(det.Entries) == 0 {
 			return round
 		}
-		for c.Pop() != nil {
+		for c.PopSeeded() != nil {
 			c.Quiesce()
+			c.CloseWindow()
 		}
 		c.Quiesce()
 	}
